@@ -391,6 +391,25 @@ func (s *SMT) Prelude() string {
 	return b.String()
 }
 
+// axiomSubject maps the registration name of an axiom to the symbol it constrains.
+func axiomSubject(name string) string {
+	switch {
+	case strings.HasPrefix(name, "def_"):
+		return name[4:]
+	case name == "ax_posInf":
+		return "G_posInf"
+	case name == "ax_negInf":
+		return "G_negInf"
+	case name == "ax_sqrt":
+		return "m_sqrt"
+	case name == "ax_quant":
+		return "quant"
+	case strings.HasPrefix(name, "ax_i2f"):
+		return "i2f"
+	}
+	return name
+}
+
 func smtTokens(text string, into map[string]bool) {
 	start := -1
 	for i := 0; i <= len(text); i++ {
@@ -443,21 +462,8 @@ func (s *SMT) PreludeFor(body string) string {
 			}
 			hit := false
 			if e.isAxiom {
-				// an axiom is relevant when every uninterpreted symbol it constrains is in use:
-				// approximated by its trigger symbols (the declared functions it mentions)
-				hit = true
-				any := false
-				for _, o := range es {
-					if !o.isAxiom && o.defines != "" && e.toks[o.defines] {
-						any = true
-						if !need[o.defines] {
-							hit = false
-						}
-					}
-				}
-				if !any {
-					hit = false
-				}
+				// an axiom is included when the symbol it is about is in use
+				hit = need[axiomSubject(e.defines)]
 			} else if need[e.defines] {
 				hit = true
 			}
